@@ -918,7 +918,7 @@ class SoftwareSwitchBase (object):
     return packet
   def _action_enqueue (self, action, packet, in_port):
     self.log.warn("Enqueue not supported.  Performing regular output.")
-    self._output_packet(packet, action.tp_port, in_port)
+    self._output_packet(packet, action.port, in_port)
     return packet
 #  def _action_push_mpls_tag (self, action, packet, in_port):
 #    bottom_of_stack = isinstance(packet.next, mpls)
